@@ -85,6 +85,55 @@ BIP173_INVALID_ADDR = [
 ]
 
 
+# BIP350 test vectors: valid Bech32m strings / addresses (each verified harness-side to have final constant
+# 0x2bc830a3).  A BIP173 decoder must reject every one of them.
+BIP350_VALID_BECH32M = [
+    'A1LQFN3A', 'a1lqfn3a',
+    'an83characterlonghumanreadablepartthatcontainsthetheexcludedcharactersbioandnumber11sg7hg6',
+    'abcdef1l7aum6echk45nj3s0wdvt2fg8x9yrzpqzd3ryx',
+    '11llllllllllllllllllllllllllllllllllllllllllllllllllllllllllllllllllllllllllllllllllludsr8',
+    'split1checkupstagehandshakeupstreamerranterredcaperredlc445v', '?1v759aa',
+]
+BIP350_VALID_ADDR_M = [
+    ('bc', 'bc1pw508d6qejxtdg4y5r3zarvary0c5xw7kw508d6qejxtdg4y5r3zarvary0c5xw7kt5nd6y'), ('bc', 'BC1SW50QGDZ25J'),
+    ('bc', 'bc1zw508d6qejxtdg4y5r3zarvaryvaxxpcs'),
+    ('tb', 'tb1pqqqqp399et2xygdj5xreqhjjvcmzhxw4aywxecjdzew6hylgvsesf3hn0c'),
+    ('bc', 'bc1p0xlxvlhemja6c4dqv22uapctqupfhlxm9h8z3k2e72q4k9hcz7vqzk5jj0'),
+]
+BECH32M_CONST = 0x2bc830a3
+
+# ---- the harness' own BIP173 arithmetic (never the library's helpers): used to BUILD strings whose checksum is
+#      computed for a different final constant
+_GEN = (0x3b6a57b2, 0x26508e6d, 0x1ea119fa, 0x3d4233dd, 0x2a1462b3)
+
+
+def h_polymod(values):
+    chk = 1
+    for v in values:
+        top = chk >> 25
+        chk = ((chk & 0x1ffffff) << 5) ^ v
+        for i in range(5):
+            if (top >> i) & 1:
+                chk ^= _GEN[i]
+    return chk
+
+
+def h_groups(prog):
+    """5-bit groups of a byte string, zero-padded"""
+    bits = ''.join('{:08b}'.format(b) for b in prog)
+    bits += '0' * (-len(bits) % 5)
+    return [int(bits[i:i + 5], 2) for i in range(0, len(bits), 5)]
+
+
+def h_address(hrp, witver, prog, const=1):
+    """hrp + '1' + data + the six checksum symbols that make the final polymod equal to `const`
+    (const = 1 is BIP173, 0x2bc830a3 is Bech32m)"""
+    data = [witver] + h_groups(prog)
+    exp = [ord(c) >> 5 for c in hrp] + [0] + [ord(c) & 31 for c in hrp]
+    pm = h_polymod(exp + data + [0] * 6) ^ const
+    return hrp + '1' + ''.join(CHARSET[d] for d in data + [(pm >> 5 * (5 - i)) & 31 for i in range(6)])
+
+
 def cps(s):
     """a Python str on the line protocol: comma-separated decimal code points"""
     return ','.join(str(ord(ch)) for ch in s)
@@ -167,7 +216,10 @@ class C11(Prop):
             'code points and lone surrogates, at every position of lower/upper/mixed renderings, in HRP arguments and '
             'through CBech32Data; histories: every ordered pair of a catalogue of 27 calls (succeeding, rejecting, raising '
             'part-way, other chain, same/different arguments) + random histories; observer sequences on one CBech32Data '
-            'instance: all ordered pairs and permutations of str/bytes/witver/==/hash/repr with chain switches between')
+            'instance: all ordered pairs and permutations of str/bytes/witver/==/hash/repr with chain switches between; '
+            'checksum constant: for valid triples the strings whose checksum is computed (harness-side) for another final '
+            'constant (Bech32m 0x2bc830a3, 0, 2, 3, all ones, every single bit, random) in both cases through decode and '
+            'CBech32Data, and the BIP350 vectors — all must be rejected')
 
     def setup(self):
         ensure_repo_on_path()
@@ -484,6 +536,47 @@ class C11(Prop):
                                 if c2 != a[j]:
                                     yield mk('c11.decode', cps(h), cps(a[:i] + c1 + a[i + 1:j] + c2 + a[j + 1:]),
                                              tag='sub2-all')
+
+        # (6) the checksum's final constant.  For valid (prefix, version, program) triples the string whose six
+        #     checksum symbols are computed for ANOTHER final constant — Bech32m's 0x2bc830a3, 0, 2, 3, all ones,
+        #     every single bit, random 30-bit values — in lower and upper case, through decode and CBech32Data: BIP173
+        #     accepts the constant 1 only (const = 1 is included as the positive control).  Plus the BIP350 vectors.
+        consts = [BECH32M_CONST, 0, 2, 3, 0x3fffffff, BECH32M_CONST ^ 1] + [1 << k for k in range(30)] + \
+                 [crng.randrange(1 << 30) for _ in range(12 if big else 4)]
+        triples = [(h, v, bytes((7 * k + 11 * v + ln) % 256 for k in range(ln)))
+                   for h in CHAIN_HRPS + ('1', 'kis', 'x' * 30)
+                   for (v, ln) in ((0, 20), (0, 32), (1, 32), (1, 2), (16, 40), (2, 33), (15, 7), (8, 20))
+                   if len(h) + 1 + data_len(ln) <= 90]
+        triples += [(self._rand_hrp(crng, crng.randrange(1, 30)), crng.randrange(1, 17), crng.randbytes(crng.randrange(2, 41)))
+                    for _ in range(200 if big else 20)]
+        chain_of = {'bc': ('mainnet',), 'tb': ('testnet', 'signet'), 'bcrt': ('regtest',)}
+        for (h, v, pr) in triples:
+            for c in consts:
+                if not mine():
+                    continue
+                a = h_address(h, v, pr, c)
+                for form in (a, a.upper()):
+                    yield mk('c11.decode', cps(h), cps(form), tag='const-control' if c == 1 else 'wrong-const')
+                    for ch in chain_of.get(h, ()):
+                        yield mk('c11.new', ch, cps(form), tag='const-control' if c == 1 else 'wrong-const')
+        for _ in range(per_shard(40000 if big else 4000)):        # random triples x random / Bech32m constants
+            v = rng.randrange(17)
+            ln = rng.choice([20, 32]) if v == 0 else rng.randrange(2, 41)
+            h = rng.choice(CHAIN_HRPS) if rng.randrange(2) else self._rand_hrp(rng, rng.randrange(1, 90 - data_len(ln)))
+            c = rng.choice([BECH32M_CONST, BECH32M_CONST, rng.randrange(1 << 30), 1 << rng.randrange(30), 0])
+            a = h_address(h, v, rng.randbytes(ln), c)
+            a = a.upper() if rng.randrange(3) == 0 else a
+            yield mk('c11.decode', cps(h), cps(a), tag='wrong-const')
+            for ch in chain_of.get(h, ()):
+                yield mk('c11.new', ch, cps(a), tag='wrong-const')
+        for k, sv in enumerate(BIP350_VALID_BECH32M + [a for _, a in BIP350_VALID_ADDR_M]):
+            if mine():
+                hh = sv.lower()[:sv.lower().rfind('1')]
+                for form in (sv, sv.lower(), sv.upper()):
+                    yield mk('c11.decode', cps(hh), cps(form), tag='bip350')
+                    yield mk('c11.b32dec', cps(form), tag='bip350-b32dec')
+                    for ch in CHAINS:
+                        yield mk('c11.new', ch, cps(form), tag='bip350')
 
         # (5) histories (one process, call after call) and observer sequences on ONE CBech32Data object.
         #     The model answers every step statelessly.  Each history starts with two neutral flushing steps
